@@ -241,7 +241,7 @@ func checkC11(w *World, r *Report) {
 		}
 	})
 	okForced, okGraceful := false, true
-	gracefulDetail := ""
+	gracefulDetail, loopExit := "", ""
 	for _, p := range res.Paths {
 		forced := false
 		for _, l := range p.Lits {
@@ -259,7 +259,22 @@ func checkC11(w *World, r *Report) {
 			}
 			if e.Kind == "call" && e.Callee != nil && (e.Callee == ro.CancelInt || len(ro.callsReaching(e.Callee, func(f *ssa.Function) bool { return f == ro.CancelInt })) > 0 && e.Callee.Signature.Params().Len() == 1) {
 				if (e.Val == "recv,rangekey(recv.jobsByID)" || e.Val == "recv,rangeval(recv.jobsByID)") && locked && forced {
-					cancels = true
+					// the call sits in the range loop over the id index, and that loop is left only when the index is exhausted
+					if hd, body := naturalLoop(e.In.Block()); hd != nil {
+						if exits := earlyExits(hd, body); len(exits) == 0 {
+							cancels = true
+						} else {
+							for _, x := range exits[0].Instrs {
+								if x.Pos().IsValid() {
+									loopExit = w.Pos(x.Pos())
+									break
+								}
+							}
+							if loopExit == "" {
+								loopExit = "block " + exits[0].String()
+							}
+						}
+					}
 				} else {
 					okGraceful = false
 					gracefulDetail = "internal cancel called with " + e.Val + fmt.Sprintf(" (forced branch=%v, write lock held=%v)", forced, locked)
@@ -270,7 +285,7 @@ func checkC11(w *World, r *Report) {
 			okForced = true
 		}
 	}
-	r.Check(okForced && doneIdx != "", "forced.cancels-all", sname+": context done → cancel every job", w.Pos(sd.Pos()), "on the ctx.Done() branch every id of the id index is passed to the internal cancel under the write lock, then the function returns", "the forced branch of shutdown does not cancel every job of the id index under the write lock")
+	r.Check(okForced && doneIdx != "", "forced.cancels-all", sname+": context done → cancel every job", w.Pos(sd.Pos()), "on the ctx.Done() branch every id of the id index is passed to the internal cancel under the write lock, then the function returns", "the forced branch of shutdown does not cancel every job of the id index under the write lock"+map[bool]string{true: " (the loop over the index can be left early, towards " + loopExit + ")", false: ""}[loopExit != ""])
 	r.Check(okGraceful, "graceful.no-cancel", sname+": no cancel outside the forced branch", w.Pos(sd.Pos()), "the internal cancel is reachable only on the ctx.Done() branch", "a graceful shutdown cancels running jobs: "+gracefulDetail)
 	// the poll loop leaves only when no pipeline is running
 	okPoll := false
